@@ -336,3 +336,80 @@ def run_controlled(setting, root, par, schedule, loss_cases):
     finally:
         sim.joblib, flow.joblib, Algo.optimize = orig
     return res, ctl.n_jobs_seen
+
+
+# ---------------------------------------------------------------- C->S: events of real threaded estimation
+def record_threaded_estimation(setting, root, n_threads=4):
+    """Runs the real flow with joblib's THREADING backend at the estimation level and records, under a lock,
+    the two linearisation points of every loss-minimisation task (configure the loss / start the optimiser).
+    Returns the list of events for Trace_C15.tla.  Nothing in /repo is touched: the wrappers live in this process."""
+    import hashlib
+    import joblib
+    import quara.simulation.standard_qtomography_simulation as sim
+    import quara.simulation.standard_qtomography_simulation_flow as flow
+    from quara.loss_function.probability_based_loss_function import ProbabilityBasedLossFunction as Loss
+    from quara.minimization_algorithm.projected_gradient_descent_backtracking import ProjectedGradientDescentBacktracking as Algo
+    lock = threading.Lock()
+    events, ids, obj_ids = [], {}, {}
+    local = threading.local()
+    case_ctx = threading.local()
+
+    def dg(dists):
+        h = hashlib.sha1()
+        for d in dists:
+            h.update(np.ascontiguousarray(np.asarray(d, dtype=np.float64)).tobytes())
+        return h.hexdigest()[:12]
+    orig = dict(exec_est=sim.execute_estimation, task=sim._execute_estimation, setd=Loss.set_from_standard_qtomography_option_data,
+                opt=Algo.optimize, case=flow.execute_simulation_case_unit)
+
+    def case_unit(test_setting, true_object, tester_objects, empi_dists_sequences, case_index, sample_index, *a, **k):
+        case_ctx.sc = (sample_index + 1, case_index + 1)
+        return orig["case"](test_setting, true_object, tester_objects, empi_dists_sequences, case_index, sample_index, *a, **k)
+
+    def exec_est(qtomography, simulation_setting, empi_dists_sequences, n_jobs=1, *a, **k):
+        s, c = case_ctx.sc
+        with lock:
+            for r, seq in enumerate(empi_dists_sequences):
+                ids[id(seq)] = (s, c, r + 1)
+        with joblib.parallel_backend("threading", n_jobs=n_threads):
+            return orig["exec_est"](qtomography, simulation_setting, empi_dists_sequences, n_threads, *a, **k)
+
+    def task(qtomography, empi_dists_seq, *a, **k):
+        local.task = ids.get(id(empi_dists_seq))
+        local.step = 0
+        try:
+            return orig["task"](qtomography, empi_dists_seq, *a, **k)
+        finally:
+            local.task = None
+
+    def setd(self, qtomography, option, data, *a, **k):
+        t = getattr(local, "task", None)
+        if t is not None and local.step == 0:
+            with lock:
+                oid = obj_ids.setdefault(id(self), len(obj_ids) + 1)
+                events.append(dict(ev="SetE", s=t[0], c=t[1], r=t[2], loss=oid, own=dg([d[1] for d in data])))
+            local.step = 1
+            local.keep = self          # keep the object alive so that ids stay unique
+        return orig["setd"](self, qtomography, option, data, *a, **k)
+
+    def opt(self, loss_function, *a, **k):
+        t = getattr(local, "task", None)
+        if t is not None and local.step == 1:
+            with lock:
+                oid = obj_ids.setdefault(id(loss_function), len(obj_ids) + 1)
+                events.append(dict(ev="OptE", s=t[0], c=t[1], r=t[2], loss=oid, held=dg(loss_function.prob_dists_q)))
+            local.step = 2
+        return orig["opt"](self, loss_function, *a, **k)
+    keepalive = []
+    sim.execute_estimation, sim._execute_estimation = exec_est, task
+    Loss.set_from_standard_qtomography_option_data, Algo.optimize = setd, opt
+    flow.execute_simulation_case_unit = case_unit
+    try:
+        with quiet():
+            res = flow.execute_simulation_test_settings([setting], str(root), pdf_mode="none", parallel_mode=None, exec_sim_check=NO_CHECKS)
+        keepalive.append(res)
+    finally:
+        sim.execute_estimation, sim._execute_estimation = orig["exec_est"], orig["task"]
+        Loss.set_from_standard_qtomography_option_data, Algo.optimize = orig["setd"], orig["opt"]
+        flow.execute_simulation_case_unit = orig["case"]
+    return events, res
